@@ -23,15 +23,27 @@ PROVED to agree on a lexically defined fragment of the pattern language, in both
   are errors for both), under the lexical side condition that the group names of the pattern
   (`lexNames pat`, escapes resolved) are pairwise distinct.  The duplicate-name rule itself (ES2025
   allows equal names in different alternatives) is NOT covered yet.
+* `C08_fragment_u_ext` / `C08_fragment_legacy_ext`: the LARGEST fragments proved so far (these grow
+  with the stages; the earlier theorems are corollaries, see `inFragU_ext` etc.): moreover MODIFIER
+  GROUPS `(?ims-ims:…)` in both modes (`modifiers_sim`: the crate's one-pass scan with an `Option`
+  per flag against the grammar's two maximal runs + early errors); under `u`/`v` moreover PROPERTY
+  ESCAPES `\p{…}` / `\P{…}` outside and (without `v`) inside classes (`prop_sim`: the crate's
+  one-loop scanner over the generated name tables against the grammar's two runs of property
+  characters over the Unicode 17 name lists — the equality of the name sets is C11 —, the empty names,
+  the six property-name spellings, the seven properties of strings incl. `\P{RGI_Emoji}`); under `v`
+  moreover CLASS SETS (`v_all` in `C08FragVCls.lean`: union / `&&` / `--`, nested classes, `\q{…}`,
+  ranges of ClassSetCharacters, ClassSetSyntaxCharacters and reserved double punctuators, and the
+  MayContainStrings early error of negated classes — the crate's `may_contain_strings` flag is proved
+  equal to the grammar's static MayContainStrings at every level).
 * `C08_fragment_legacy` (neither `u` nor `v`, Annex B): the same token set without `\` and `[`
   (lone `{` `}` `]` are literals, look-aheads are quantifiable, `InvalidBracedQuantifier`).
 
-Not covered: duplicate group names, named groups in Annex B mode, modifier groups `(?ims-ims:…)`, `\p{…}`, classes under `v`,
+Not covered: duplicate group names, `\k` together with named groups in Annex B mode,
 escapes and classes in Annex B mode, lone surrogates under `u` / supplementary code points without `u`.
 
 Definitions (all decidable, all lexical; `Proofs/Lemmas/C08FragDefs.lean`):
-* `fragCore ⟨e, k, nm⟩` = `fragGo ⟨e, k, nm⟩ false`, a two-mode scanner (`e`: escapes admitted, `k`:
-  classes admitted, `nm`: named groups and `\k` admitted); `parenOk`, `escOk` say what may follow `(` and `\`.
+* `fragCore ⟨e, k, nm, md⟩` = `fragGo ⟨e, k, nm, md⟩ false`, a two-mode scanner (`e`: escapes admitted, `k`:
+  classes admitted, `nm`: named groups and `\k` admitted, `md`: modifier groups admitted); `parenOk`, `escOk` say what may follow `(` and `\`.
 * `withinLimits pat` = `md pat ≤ 255 ∧ opens pat ≤ 65535 ∧ quants pat ≤ 65535`: `md` the nesting depth
   of parentheses (escape- and class-aware; the crate's `MAX_NESTING_DEPTH = 256` counts the top-level
   disjunction), `opens` the number of `(` (at least the number of capture groups, limit 65535),
@@ -39,7 +51,7 @@ Definitions (all decidable, all lexical; `Proofs/Lemmas/C08FragDefs.lean`):
   Under these no `Error::…limit` of the crate is reachable.
 * `flagsText fl`: `i`, `m`, `s`, then `v` if `unicode_sets`, else `u` if `unicode`.
 
-Method (`Proofs/Lemmas/C08Frag{Num,Esc,Cls,Named,Sim,Top}.lean`): a simulation of the grammar recognizer
+Method (`Proofs/Lemmas/C08Frag{Num,Defs,Prop,Esc,Cls,Named,Mods,Sim,Top}.lean`): a simulation of the grammar recognizer
 (`disj alt body term quantified atom`) by the crate's descent (`disjLoop termLoop consumeDisjunction
 consumeAtom`), by induction on the recognizer's fuel, with the lexical pieces (quantifiers, escapes,
 classes, the capture-group pre-scan) related separately.  The two places where the recognizers are
@@ -80,13 +92,45 @@ pairwise distinct. -/
 def inFragUNamed (v : Bool) (pat : List Nat) : Bool :=
   fragCore { e := true, k := !v, nm := true } pat &&
     (pat.all fun c => decide (c ≤ 0x10FFFF) && !(decide (0xD800 ≤ c) && decide (c ≤ 0xDFFF))) &&
-    decide (lexNames pat).Nodup
+    decide (lexNames false pat).Nodup
+
+/-- The LARGEST fragment proved so far, UnicodeMode (this definition grows with the stages; the
+earlier fragments are contained in it, `inFragU_ext`, `inFragUNamed_ext`): as `inFragUNamed`, and
+moreover MODIFIER GROUPS `(?ims-ims:…)` (the early errors — a flag twice, `(?-:`, a second `-` —
+are errors for both recognizers) and PROPERTY ESCAPES `\\p{…}` / `\\P{…}` (any text after `\\p`;
+ill-formed or unknown ones are errors for both), and — with `v` — CLASS SETS `[…]` with nested classes
+(any contents; the scanners `fragGo` / `md` / `capOpens` / `lexNames` follow the bracket nesting like the
+crate's pre-scan `skipBracketV`); with `v` the pattern must moreover satisfy `md true pat + brk pat ≤ 255`
+(parenthesis depth plus number of `[`: nested classes count towards the crate's nesting limit). -/
+def inFragUExt (v : Bool) (pat : List Nat) : Bool :=
+  fragCore { e := true, k := !v, nm := true, md := true, pr := true, vk := v } pat &&
+    (pat.all fun c => decide (c ≤ 0x10FFFF) && !(decide (0xD800 ≤ c) && decide (c ≤ 0xDFFF))) &&
+    decide (lexNames v pat).Nodup && (!v || decide (md true pat + brk pat ≤ 255))
+
+/-- The LARGEST fragment proved so far, Annex B mode (grows with the stages): as `inFragLegacy`, and
+moreover modifier groups `(?ims-ims:…)` and ESCAPES outside classes (Annex B: nothing but a `\\` at
+the end of the pattern is an error), except (`legEscOk`) `\\c` not followed by a letter, a decimal
+escape of more than one digit, `\\u{` (finding F30) and a `\\uHHHH` lead surrogate directly followed
+by `\\u` (F29) — in these the two readers consume different amounts of text —, and CHARACTER CLASSES
+(Annex B: class escapes may stand at the ends of a "range", `\\c` + digit or `_`, legacy octal
+escapes of any length; out-of-order ranges are errors, the VALUES of the escapes are proved equal),
+except (`inClsOk`) classes containing `\\u{` or such a surrogate pair of escapes, or a `\\c` not
+followed by a ClassControlLetter; and NAMED GROUPS `(?<name>…)` with pairwise distinct names, in patterns
+without surrogate code units and without any `\\k` (with named groups the grammar parses twice,
+`[~NamedCaptureGroups]` then `[+NamedCaptureGroups]`, which differ in `\\k` only; the crate's single
+parse is related to both). -/
+def inFragLegacyExt (pat : List Nat) : Bool :=
+  (pat.all fun c => decide (c < 0x10000)) &&
+  (fragCore { e := false, k := false, md := true, le := true, lk := true } pat ||
+    (fragCore { e := false, k := false, nm := true, md := true, le := true, lk := true } pat &&
+      (pat.all fun c => !(decide (0xD800 ≤ c) && decide (c ≤ 0xDFFF))) && decide (lexNames false pat).Nodup))
 
 /-- The common core of the UnicodeMode theorems. -/
-theorem core_u (nm : Bool) (pat : List Nat) (fl : Flags) (hu : (fl.unicode || fl.unicodeSets) = true)
-    (hfr : fragCore { e := true, k := !fl.unicodeSets, nm := nm } pat = true)
-    (hall : ∀ c ∈ pat, c ≤ 0x10FFFF ∧ ¬ (0xD800 ≤ c ∧ c ≤ 0xDFFF)) (hnd : (lexNames pat).Nodup)
-    (hl : withinLimits pat = true) :
+theorem core_u (nm md pr vk : Bool) (pat : List Nat) (fl : Flags) (hu : (fl.unicode || fl.unicodeSets) = true)
+    (hvk : vk = true → fl.unicodeSets = true)
+    (hfr : fragCore { e := true, k := !fl.unicodeSets, nm := nm, md := md, pr := pr, vk := vk } pat = true)
+    (hall : ∀ c ∈ pat, c ≤ 0x10FFFF ∧ ¬ (0xD800 ≤ c ∧ c ≤ 0xDFFF)) (hnd : (lexNames vk pat).Nodup)
+    (hl : withinLimits pat = true) (hlv : vk = true → Regress.C08Frag.md true pat + brk pat ≤ 255) :
     (Parse.parse pat fl).isOk = true ↔ esValid (flagsText fl) pat = true := by
   have hb : Bnd pat := fun c hc => (hall c hc).1
   have hns : ∀ c ∈ pat, ¬ (0xD800 ≤ c ∧ c ≤ 0xDFFF) := fun c hc => (hall c hc).2
@@ -95,20 +139,26 @@ theorem core_u (nm : Bool) (pat : List Nat) (fl : Flags) (hu : (fl.unicode || fl
     have h2 := hns c hc
     simp only [Parse.isChar, Bool.or_eq_true, Bool.and_eq_true, decide_eq_true_eq]
     omega
-  obtain ⟨N, hN, hNok, hp⟩ := parse_isOk_iff { e := true, k := !fl.unicodeSets, nm := nm } pat fl hb hfr
-    (fun _ => hch) (by simp) hnd
+  have hkf : vk = true → (!fl.unicodeSets) = false := fun h => by rw [hvk h]; rfl
+  obtain ⟨N, hN, hNok, hp⟩ := parse_isOk_iff
+    { e := true, k := !fl.unicodeSets, nm := nm, md := md, pr := pr, vk := vk } pat fl hb hfr
+    (fun _ => hch) (by simp) (fun h => ⟨hvk h, hkf h, rfl⟩) hnd
   have heff : (effFlags fl).unicode = true := by
     unfold effFlags
     cases h1 : fl.unicodeSets <;> simp_all
   have heffv : (effFlags fl).unicodeSets = fl.unicodeSets := by
     unfold effFlags; split <;> rfl
-  obtain ⟨h1, _, h3⟩ := frag_core { e := true, k := !fl.unicodeSets, nm := nm }
+  obtain ⟨h1, _, h3⟩ := frag_core { e := true, k := !fl.unicodeSets, nm := nm, md := md, pr := pr, vk := vk }
     { u := true, v := fl.unicodeSets, n := true, feat25 := true, t := tabs } pat (effFlags fl) N
-    (by rw [heff]) (.inl ⟨rfl, rfl⟩) (fun _ => heff)
+    (by rw [heff]) (fun _ => rfl) (fun _ => heff)
     (fun h => by
       have hv : fl.unicodeSets = false := by simpa using h
-      exact ⟨rfl, heff, hv, by rw [heffv, hv]⟩)
-    (fun _ => ⟨rfl, rfl⟩)
+      refine ⟨rfl, heff, hv, by rw [heffv, hv], ?_⟩
+      cases hk : vk with
+      | false => rfl
+      | true => rw [hvk hk] at hv; cases hv)
+    (fun _ => rfl) (fun _ => rfl) (fun _ => ⟨rfl, heffv.symm⟩) (fun h => by cases h) (fun h => by cases h)
+    (fun h => ⟨heff, rfl, hvk h, rfl, by rw [heffv]; exact hvk h, hlv h⟩)
     (fun _ => hch) hfr hl hN hNok hnd
   rw [hp, h1, esValid_eq]
   have huv : ((fl.unicode && !fl.unicodeSets) || fl.unicodeSets) = true := by
@@ -119,6 +169,70 @@ theorem core_u (nm : Bool) (pat : List Nat) (fl : Flags) (hu : (fl.unicode || fl
   | ok st => simp
   | bad => simp
   | fuel => exact absurd hpp h3
+
+/-- The common core of the Annex B theorems.  With named groups (`nm`) the grammar parses twice
+(B.1.2.9: `[~NamedCaptureGroups]`, and — as the parse contains a GroupName — `[+NamedCaptureGroups]`);
+the crate's single parse is related to both. -/
+theorem core_legacy (nm md le lk : Bool) (pat : List Nat) (fl : Flags) (hu : fl.unicode = false)
+    (hv : fl.unicodeSets = false)
+    (hfr : fragCore { e := false, k := false, nm := nm, md := md, le := le, lk := lk } pat = true)
+    (hall : ∀ c ∈ pat, c < 0x10000) (hchn : nm = true → ∀ c ∈ pat, Parse.isChar c = true)
+    (hnd : (lexNames false pat).Nodup) (hl : withinLimits pat = true) :
+    (Parse.parse pat fl).isOk = true ↔ esValid (flagsText fl) pat = true := by
+  have hb : Bnd pat := fun c hc => by have := hall c hc; omega
+  obtain ⟨N, hN, hNok, hp⟩ := parse_isOk_iff { e := false, k := false, nm := nm, md := md, le := le, lk := lk } pat fl hb hfr
+    hchn (fun _ => hv) (fun h => by cases h) hnd
+  have heff : (effFlags fl).unicode = false := by
+    unfold effFlags; simp [hv, hu]
+  have heffv : (effFlags fl).unicodeSets = false := by
+    unfold effFlags; simp [hv]
+  have hcore : ∀ (n : Bool), (nm = false → n = false) →
+      ((∃ nd st1, consumeDisjunction (parseFuel pat)
+        { input := pat, flags := effFlags fl, groupCountMax := min (capOpens false pat) Gen.MAX_CAPTURE_GROUPS,
+          named := N } = .ok (nd, st1) ∧ st1.input = []) ↔
+        ∃ st, parsePattern { u := false, v := false, n := n, feat25 := true, t := tabs } pat = .ok st) ∧
+      (∀ st, parsePattern { u := false, v := false, n := n, feat25 := true, t := tabs } pat = .ok st →
+        st.names.reverse = lexNames false pat) ∧
+      parsePattern { u := false, v := false, n := n, feat25 := true, t := tabs } pat ≠ .fuel := by
+    intro n hn
+    exact frag_core { e := false, k := false, nm := nm, md := md, le := le, lk := lk }
+      { u := false, v := false, n := n, feat25 := true, t := tabs } pat (effFlags fl) N
+      (by rw [heff]) (fun h => by cases h) (fun h => by cases h) (fun h => by cases h) (fun _ => rfl)
+      (fun _ => rfl) (fun h => by cases h) (fun _ => ⟨heff, heffv, hn⟩) (fun _ => ⟨heff, rfl, heffv, rfl, hn⟩)
+      (fun h => by cases h)
+      (fun h => by
+        rcases h with h | h
+        · cases h
+        · exact hchn h) hfr hl hN hNok hnd
+  obtain ⟨h1, h2, h3⟩ := hcore false (fun _ => rfl)
+  rw [hp, esValid_eq, hu, hv]
+  unfold esValidCore
+  simp only [Bool.false_and, Bool.or_self, Bool.false_eq_true, if_false, toUnits_id pat hall]
+  cases hpp : parsePattern { u := false, v := false, n := false, feat25 := true, t := tabs } pat with
+  | fuel => exact absurd hpp h3
+  | bad =>
+    rw [h1, hpp]; simp
+  | ok st =>
+    simp only
+    by_cases hemp : st.names.isEmpty = true
+    · rw [if_pos hemp, h1, hpp]; simp
+    · rw [if_neg hemp]
+      -- a GroupName: the second parse decides
+      have hnm : nm = true := by
+        cases hq : nm with
+        | true => rfl
+        | false =>
+          subst hq
+          have := h2 st hpp
+          rw [lexNames_nil_of_frag _ rfl hfr] at this
+          have : st.names = [] := by simpa using this
+          rw [this] at hemp; exact absurd rfl hemp
+      obtain ⟨g1, _, g3⟩ := hcore true (fun h => by rw [hnm] at h; cases h)
+      rw [g1]
+      cases hpp1 : parsePattern { u := false, v := false, n := true, feat25 := true, t := tabs } pat with
+      | fuel => exact absurd hpp1 g3
+      | bad => simp
+      | ok st1 => simp
 
 theorem scalar_of_all {pat : List Nat}
     (h : (pat.all fun c => decide (c ≤ 0x10FFFF) && !(decide (0xD800 ≤ c) && decide (c ≤ 0xDFFF))) = true) :
@@ -136,7 +250,8 @@ theorem C08_fragment_u (pat : List Nat) (fl : Flags) (hu : (fl.unicode || fl.uni
   simp only [inFragU, Bool.and_eq_true] at hf
   obtain ⟨hfr, hall⟩ := hf
   have hnil := lexNames_nil_of_frag _ rfl hfr
-  exact core_u false pat fl hu hfr (scalar_of_all hall) (by rw [hnil]; exact List.nodup_nil) hl
+  exact core_u false false false false pat fl hu (fun h => by cases h) hfr (scalar_of_all hall)
+    (by rw [hnil]; exact List.nodup_nil) hl (fun h => by cases h)
 
 /-- **C08 on the fragment with named groups, UnicodeMode** (`u` or `v`); subsumes `C08_fragment_u`
 (`inFragU v pat → inFragUNamed v pat`, `inFragU_named`). -/
@@ -145,86 +260,198 @@ theorem C08_fragment_u_named (pat : List Nat) (fl : Flags) (hu : (fl.unicode || 
     (Parse.parse pat fl).isOk = true ↔ esValid (flagsText fl) pat = true := by
   simp only [inFragUNamed, Bool.and_eq_true, decide_eq_true_eq] at hf
   obtain ⟨⟨hfr, hall⟩, hnd⟩ := hf
-  exact core_u true pat fl hu hfr (scalar_of_all hall) hnd hl
+  exact core_u true false false false pat fl hu (fun h => by cases h) hfr (scalar_of_all hall) hnd hl
+    (fun h => by cases h)
 
-/-- The named fragment contains the unnamed one. -/
-theorem parenOk_nm (r : List Nat) (h : parenOk false r = true) : parenOk true r = true := by
-  unfold parenOk at h ⊢
-  split <;> simp_all
-
-theorem fragGo_nm (e k : Bool) (m : Bool) (l : List Nat)
-    (h : fragGo { e := e, k := k } m l = true) : fragGo { e := e, k := k, nm := true } m l = true := by
-  fun_induction fragGo { e := e, k := k } m l with
-  | case1 => rfl
-  | case2 x r ih =>
-    rw [fragGo_esc_in]
-    simp only [Bool.and_eq_true] at h ⊢
-    exact ⟨h.1, ih h.2⟩
-  | case3 r ih => rw [fragGo_close]; exact ih h
-  | case4 c r h1 h2 ih =>
-    rw [fragGo]
-    · exact ih h
-    · exact h1
-    · intro hc; exact h2 hc
-  | case5 => rfl
-  | case6 x r ih =>
-    rw [fragGo_esc_out]
-    simp only [Bool.and_eq_true] at h ⊢
-    refine ⟨⟨h.1.1, ?_⟩, ih h.2⟩
-    have := h.1.2
-    simp only [escOk] at this ⊢
-    revert this
-    cases x == 0x70 <;> cases x == 0x50 <;> cases x == 0x6B <;> simp
-  | case7 r ih =>
-    rw [fragGo_open]
-    simp only [Bool.and_eq_true] at h ⊢
-    exact ⟨h.1, ih h.2⟩
-  | case8 c r h1 h2 ih =>
-    rw [fragGo]
-    · simp only [Bool.and_eq_true, Bool.or_eq_true] at h ⊢
-      refine ⟨⟨h.1.1, ?_⟩, ih h.2⟩
-      rcases h.1.2 with h' | h'
-      · exact .inl h'
-      · exact .inr (parenOk_nm r h')
-    · exact h1
-    · intro hc; exact h2 hc
-
-theorem inFragU_named (v : Bool) (pat : List Nat) (h : inFragU v pat = true) :
-    inFragUNamed v pat = true := by
-  simp only [inFragU, Bool.and_eq_true] at h
-  simp only [inFragUNamed, Bool.and_eq_true, decide_eq_true_eq]
-  refine ⟨⟨fragGo_nm _ _ _ _ h.1, h.2⟩, ?_⟩
-  rw [lexNames_nil_of_frag _ rfl h.1]
-  exact List.nodup_nil
+/-- **C08 on the largest fragment proved so far, UnicodeMode** (`u` or `v`): named groups, modifier
+groups; subsumes `C08_fragment_u` and `C08_fragment_u_named`. -/
+theorem C08_fragment_u_ext (pat : List Nat) (fl : Flags) (hu : (fl.unicode || fl.unicodeSets) = true)
+    (hf : inFragUExt fl.unicodeSets pat = true) (hl : withinLimits pat = true) :
+    (Parse.parse pat fl).isOk = true ↔ esValid (flagsText fl) pat = true := by
+  simp only [inFragUExt, Bool.and_eq_true, decide_eq_true_eq, Bool.or_eq_true, Bool.not_eq_true'] at hf
+  obtain ⟨⟨⟨hfr, hall⟩, hnd⟩, hlv⟩ := hf
+  refine core_u true true true fl.unicodeSets pat fl hu id hfr (scalar_of_all hall) hnd hl (fun h => ?_)
+  rcases hlv with h' | h'
+  · rw [h] at h'; cases h'
+  · exact h'
 
 /-- **C08 on the fragment, Annex B mode** (neither `u` nor `v`). -/
 theorem C08_fragment_legacy (pat : List Nat) (fl : Flags) (hu : fl.unicode = false)
     (hv : fl.unicodeSets = false) (hf : inFragLegacy pat = true) (hl : withinLimits pat = true) :
     (Parse.parse pat fl).isOk = true ↔ esValid (flagsText fl) pat = true := by
   simp only [inFragLegacy, Bool.and_eq_true, List.all_eq_true, decide_eq_true_eq] at hf
-  obtain ⟨hfr, hall⟩ := hf
-  have hb : Bnd pat := fun c hc => by have := hall c hc; omega
-  have hnil := lexNames_nil_of_frag _ rfl hfr
-  obtain ⟨N, hN, hNok, hp⟩ := parse_isOk_iff { e := false, k := false } pat fl hb hfr (fun h => by cases h)
-    (fun h => by cases h) (by rw [hnil]; exact List.nodup_nil)
-  have heff : (effFlags fl).unicode = false := by
-    unfold effFlags; simp [hv, hu]
-  obtain ⟨h1, h2, h3⟩ := frag_core { e := false, k := false }
-    { u := false, v := false, n := false, feat25 := true, t := tabs } pat (effFlags fl) N
-    (by rw [heff]) (.inr ⟨rfl, rfl⟩) (fun h => by cases h) (fun h => by cases h) (fun h => by cases h)
-    (fun h => by cases h) hfr hl hN hNok (by rw [hnil]; exact List.nodup_nil)
-  rw [hp, h1, esValid_eq, hu, hv]
-  unfold esValidCore
-  simp only [Bool.false_and, Bool.or_self, Bool.false_eq_true, if_false, toUnits_id pat hall]
-  cases hpp : parsePattern { u := false, v := false, n := false, feat25 := true, t := tabs } pat with
-  | ok st =>
-    have : st.names = [] := by
-      have := h2 st hpp
-      rw [hnil] at this
-      simpa using this
-    simp [this]
-  | bad => simp
-  | fuel => exact absurd hpp h3
+  exact core_legacy false false false false pat fl hu hv hf.1 hf.2 (fun h => by cases h)
+    (by rw [lexNames_nil_of_frag _ rfl hf.1]; exact List.nodup_nil) hl
+
+/-- **C08 on the largest fragment proved so far, Annex B mode**: modifier groups; subsumes
+`C08_fragment_legacy`. -/
+theorem C08_fragment_legacy_ext (pat : List Nat) (fl : Flags) (hu : fl.unicode = false)
+    (hv : fl.unicodeSets = false) (hf : inFragLegacyExt pat = true) (hl : withinLimits pat = true) :
+    (Parse.parse pat fl).isOk = true ↔ esValid (flagsText fl) pat = true := by
+  simp only [inFragLegacyExt, Bool.and_eq_true, Bool.or_eq_true, List.all_eq_true, decide_eq_true_eq,
+    Bool.not_eq_true', Bool.and_eq_false_iff, decide_eq_false_iff_not] at hf
+  obtain ⟨hall, hf | ⟨⟨hf, hns⟩, hnd⟩⟩ := hf
+  · exact core_legacy false true true true pat fl hu hv hf hall (fun h => by cases h)
+      (by rw [lexNames_nil_of_frag _ rfl hf]; exact List.nodup_nil) hl
+  · refine core_legacy true true true true pat fl hu hv hf hall (fun _ c hc => ?_) hnd hl
+    have h1 := hall c hc
+    have h2 := hns c hc
+    simp only [Parse.isChar, Bool.or_eq_true, Bool.and_eq_true, decide_eq_true_eq]
+    omega
+
+/-! ### The fragments are nested -/
+
+theorem parenOk_mono {nm md nm' md' : Bool} (h1 : nm = true → nm' = true) (h2 : md = true → md' = true)
+    (r : List Nat) (h : parenOk nm md r = true) : parenOk nm' md' r = true := by
+  unfold parenOk at h ⊢
+  split
+  · simp only [Bool.or_eq_true] at h ⊢
+    rcases h with h | h
+    · exact .inl h
+    · exact .inr (h1 h)
+  · exact h1 h
+  · simp only [Bool.or_eq_true] at h ⊢
+    rcases h with h | h
+    · exact .inl h
+    · exact .inr (h2 h)
+  · rfl
+
+theorem fragGo_mono {F F' : Feat} (he : F.e = true → F'.e = true) (hk : F.k = true → F'.k = true)
+    (hnm : F.nm = true → F'.nm = true) (hmd : F.md = true → F'.md = true) (hpr : F.pr = true → F'.pr = true)
+    (hle : F.le = true → F'.le = true) (hlk : F.lk = F'.lk) (hvk : F.vk = F'.vk)
+    (hnk : F'.le = true ∨ F'.lk = true → F'.nm = F.nm) (m : Nat) (l : List Nat)
+    (h : fragGo F m l = true) : fragGo F' m l = true := by
+  fun_induction fragGo F m l with
+  | case1 => rw [fragGo]
+  | case2 d x r ih =>
+    rw [fragGo_esc_in, ← hlk]
+    simp only [Bool.and_eq_true] at h ⊢
+    refine ⟨?_, ih h.2⟩
+    have := h.1
+    simp only [inClsOk, Bool.and_eq_true, Bool.or_eq_true] at this ⊢
+    refine ⟨⟨⟨?_, this.1.1.2⟩, this.1.2⟩, ?_⟩
+    · rcases this.1.1.1 with (h' | h') | h'
+      · exact .inl (.inl h')
+      · exact .inl (.inr (hpr h'))
+      · exact .inr h'
+    · rcases this.2 with h' | h'
+      · cases hl' : F.lk with
+        | false => left; simp
+        | true =>
+          rw [hnk (.inr (by rw [← hlk]; exact hl'))]
+          rw [hl'] at h'
+          exact .inl h'
+      · exact .inr h'
+  | case3 d r ih => rw [fragGo_close]; exact ih h
+  | case4 d r hv ih =>
+    rw [fragGo_nest F' (by rw [← hvk]; exact hv)]; exact ih h
+  | case5 d r hv ih =>
+    rw [fragGo_in F' d r (by decide) (by decide) (.inl (by rw [← hvk]; simpa using hv))]; exact ih h
+  | case6 d c r h1 h2 h3 ih =>
+    rw [fragGo]
+    · exact ih h
+    · exact h1
+    · intro hc; exact h2 hc
+    · intro hc; exact h3 hc
+  | case7 => rfl
+  | case8 x r ih =>
+    rw [fragGo_esc_out]
+    simp only [Bool.or_eq_true, Bool.and_eq_true] at h ⊢
+    refine ⟨?_, ih h.2⟩
+    rcases h.1 with ⟨h0, h'⟩ | h'
+    · left
+      refine ⟨he h0, ?_⟩
+      rcases h' with h' | h'
+      · left
+        simp only [escOk] at h' ⊢
+        revert h'
+        cases hn : F.nm
+        · cases x == 0x70 <;> cases x == 0x50 <;> cases x == 0x6B <;> simp
+        · rw [hnm hn]; exact id
+      · exact .inr ⟨hpr h'.1, h'.2⟩
+    · refine .inr ⟨hle h'.1, h'.2.1, ?_⟩
+      rw [hnk (.inl (hle h'.1))]
+      exact h'.2.2
+  | case9 r ih =>
+    rw [fragGo_open, ← hlk, ← hvk]
+    simp only [Bool.and_eq_true, Bool.or_eq_true] at h ⊢
+    refine ⟨?_, ih h.2⟩
+    rcases h.1 with (h' | h') | h'
+    · exact .inl (.inl (hk h'))
+    · exact .inl (.inr h')
+    · exact .inr h'
+  | case10 c r h1 h2 ih =>
+    rw [fragGo]
+    · simp only [Bool.and_eq_true, Bool.or_eq_true] at h ⊢
+      refine ⟨⟨?_, ?_⟩, ih h.2⟩
+      · rcases h.1.1 with (h' | h') | h'
+        · exact .inl (.inl h')
+        · exact .inl (.inr (he h'))
+        · exact .inr (hle h')
+      · rcases h.1.2 with h' | h'
+        · exact .inl h'
+        · exact .inr (parenOk_mono hnm hmd r h')
+    · exact h1
+    · intro hc; exact h2 hc
+
+theorem fragCore_mono (F F' : Feat) (he : F.e = true → F'.e = true) (hk : F.k = true → F'.k = true)
+    (hnm : F.nm = true → F'.nm = true) (hmd : F.md = true → F'.md = true) (hpr : F.pr = true → F'.pr = true)
+    (hle : F.le = true → F'.le = true) (hlk : F.lk = F'.lk) (hvk : F.vk = F'.vk)
+    (hnk : F'.le = true ∨ F'.lk = true → F'.nm = F.nm) {pat : List Nat}
+    (h : fragCore F pat = true) : fragCore F' pat = true :=
+  fragGo_mono he hk hnm hmd hpr hle hlk hvk hnk 0 pat h
+
+theorem inFragU_named (v : Bool) (pat : List Nat) (h : inFragU v pat = true) :
+    inFragUNamed v pat = true := by
+  simp only [inFragU, Bool.and_eq_true] at h
+  simp only [inFragUNamed, Bool.and_eq_true, decide_eq_true_eq]
+  refine ⟨⟨fragCore_mono { e := true, k := !v } { e := true, k := !v, nm := true } id id (fun _ => rfl) id id id rfl rfl (by rintro (h | h) <;> cases h) h.1, h.2⟩, ?_⟩
+  rw [lexNames_nil_of_frag _ rfl h.1]
+  exact List.nodup_nil
+
+/-- Without `v` the largest fragment contains the earlier ones.  (With `v` it does so for patterns within
+the additional bracket limit of `inFragUExt`; the statement is omitted.) -/
+theorem inFragUNamed_ext (pat : List Nat) (h : inFragUNamed false pat = true) :
+    inFragUExt false pat = true := by
+  simp only [inFragUNamed, Bool.and_eq_true, decide_eq_true_eq] at h
+  simp only [inFragUExt, Bool.and_eq_true, decide_eq_true_eq, Bool.not_false, Bool.true_or, and_true]
+  exact ⟨⟨fragCore_mono { e := true, k := !false, nm := true }
+    { e := true, k := !false, nm := true, md := true, pr := true, vk := false }
+    id id id (fun _ => rfl) (fun _ => rfl) id rfl rfl (by rintro (h | h) <;> cases h) h.1.1, h.1.2⟩, h.2⟩
+
+theorem inFragU_ext (pat : List Nat) (h : inFragU false pat = true) : inFragUExt false pat = true :=
+  inFragUNamed_ext pat (inFragU_named false pat h)
+
+/-- A pattern of the basic fragment (no `\\`, no `[`) is in every fragment. -/
+theorem fragGo_base (F' : Feat) : ∀ (m : Nat) (l : List Nat), m = 0 →
+    fragGo { e := false, k := false } m l = true → fragGo F' m l = true := by
+  intro m l
+  fun_induction fragGo { e := false, k := false } m l with
+  | case1 => intro h; cases h
+  | case2 d x r ih => intro h; cases h
+  | case3 d r ih => intro h; cases h
+  | case4 d r hv ih => intro h; cases h
+  | case5 d r hv ih => intro h; cases h
+  | case6 d c r h1 h2 h3 ih => intro h; cases h
+  | case7 => intro _ _; rfl
+  | case8 x r ih => intro _ h; simp at h
+  | case9 r ih => intro _ h; simp at h
+  | case10 c r h1 h2 ih =>
+    intro _ h
+    simp only [Bool.or_false, Bool.and_eq_true, Bool.or_eq_true, bne_iff_ne, ne_eq] at h
+    rw [fragGo]
+    · simp only [Bool.and_eq_true, Bool.or_eq_true, bne_iff_ne, ne_eq]
+      refine ⟨⟨.inl (.inl h.1.1), ?_⟩, ih rfl h.2⟩
+      rcases h.1.2 with h' | h'
+      · exact .inl h'
+      · exact .inr (parenOk_mono (fun h => by cases h) (fun h => by cases h) r h')
+    · exact h1
+    · intro hc; exact h2 hc
+
+theorem inFragLegacy_ext (pat : List Nat) (h : inFragLegacy pat = true) : inFragLegacyExt pat = true := by
+  simp only [inFragLegacy, Bool.and_eq_true] at h
+  simp only [inFragLegacyExt, Bool.and_eq_true, Bool.or_eq_true]
+  exact ⟨h.2, .inl (fragGo_base _ 0 pat rfl h.1)⟩
 
 /-! ## Non-vacuity: kernel-checked members of the fragment, for each error class
 
@@ -276,6 +503,61 @@ theorem agreesUN_of (p : List Nat) (b : Bool)
   | true => exact this.1 h3
   | false =>
     cases he : esValid (flagsText { unicode := true }) p with
+    | false => rfl
+    | true => rw [this.2 he] at h3; cases h3
+
+def AgreesUX (p : List Nat) (b : Bool) : Prop :=
+  inFragUExt false p = true ∧ withinLimits p = true ∧ (Parse.parse p { unicode := true }).isOk = b ∧
+    esValid (flagsText { unicode := true }) p = b
+
+theorem agreesUX_of (p : List Nat) (b : Bool)
+    (h : (inFragUExt false p && withinLimits p && ((Parse.parse p { unicode := true }).isOk == b)) = true) :
+    AgreesUX p b := by
+  simp only [Bool.and_eq_true, beq_iff_eq] at h
+  obtain ⟨⟨h1, h2⟩, h3⟩ := h
+  have := C08_fragment_u_ext p { unicode := true } rfl h1 h2
+  refine ⟨h1, h2, h3, ?_⟩
+  cases b with
+  | true => exact this.1 h3
+  | false =>
+    cases he : esValid (flagsText { unicode := true }) p with
+    | false => rfl
+    | true => rw [this.2 he] at h3; cases h3
+
+/-- Likewise with the flag `v`. -/
+def AgreesVX (p : List Nat) (b : Bool) : Prop :=
+  inFragUExt true p = true ∧ withinLimits p = true ∧ (Parse.parse p { unicodeSets := true }).isOk = b ∧
+    esValid (flagsText { unicodeSets := true }) p = b
+
+theorem agreesVX_of (p : List Nat) (b : Bool)
+    (h : (inFragUExt true p && withinLimits p && ((Parse.parse p { unicodeSets := true }).isOk == b)) = true) :
+    AgreesVX p b := by
+  simp only [Bool.and_eq_true, beq_iff_eq] at h
+  obtain ⟨⟨h1, h2⟩, h3⟩ := h
+  have := C08_fragment_u_ext p { unicodeSets := true } rfl h1 h2
+  refine ⟨h1, h2, h3, ?_⟩
+  cases b with
+  | true => exact this.1 h3
+  | false =>
+    cases he : esValid (flagsText { unicodeSets := true }) p with
+    | false => rfl
+    | true => rw [this.2 he] at h3; cases h3
+
+def AgreesLX (p : List Nat) (b : Bool) : Prop :=
+  inFragLegacyExt p = true ∧ withinLimits p = true ∧ (Parse.parse p {}).isOk = b ∧
+    esValid (flagsText {}) p = b
+
+theorem agreesLX_of (p : List Nat) (b : Bool)
+    (h : (inFragLegacyExt p && withinLimits p && ((Parse.parse p {}).isOk == b)) = true) :
+    AgreesLX p b := by
+  simp only [Bool.and_eq_true, beq_iff_eq] at h
+  obtain ⟨⟨h1, h2⟩, h3⟩ := h
+  have := C08_fragment_legacy_ext p {} rfl rfl h1 h2
+  refine ⟨h1, h2, h3, ?_⟩
+  cases b with
+  | true => exact this.1 h3
+  | false =>
+    cases he : esValid (flagsText {}) p with
     | false => rfl
     | true => rw [this.2 he] at h3; cases h3
 
@@ -435,6 +717,143 @@ example : AgreesUN (pat! "(?<a>x)*\\k<a>+(?<=\\k<a>)") true := agreesUN_of _ _ (
 example : inFragUNamed false (pat! "(?<a>x)(?<a>y)") = false := by decide +kernel
 example : inFragUNamed false (pat! "(?<a>x)|(?<\\u0061>y)") = false := by decide +kernel
 
+-- modifier groups
+example : AgreesUX (pat! "(?i:a)") true := agreesUX_of _ _ (by decide +kernel)
+example : AgreesUX (pat! "(?ims:a)(?smi:b)") true := agreesUX_of _ _ (by decide +kernel)
+example : AgreesUX (pat! "(?i-m:a)(?-s:.)(?ims-:b)(?i-ms:c)") true := agreesUX_of _ _ (by decide +kernel)
+example : AgreesUX (pat! "(?m-i:^a$)+(?s:.)*") true := agreesUX_of _ _ (by decide +kernel)
+example : AgreesUX (pat! "(?i:(?<n>a)[b-c])\\k<n>\\1") true := agreesUX_of _ _ (by decide +kernel)
+example : AgreesUX (pat! "(?-:a)") false := agreesUX_of _ _ (by decide +kernel)
+example : AgreesUX (pat! "(?ii:a)") false := agreesUX_of _ _ (by decide +kernel)
+example : AgreesUX (pat! "(?i-i:a)") false := agreesUX_of _ _ (by decide +kernel)
+example : AgreesUX (pat! "(?i-m-s:a)") false := agreesUX_of _ _ (by decide +kernel)
+example : AgreesUX (pat! "(?s-imm:a)") false := agreesUX_of _ _ (by decide +kernel)
+example : AgreesUX (pat! "(?ix:a)") false := agreesUX_of _ _ (by decide +kernel)
+example : AgreesUX (pat! "(?i)") false := agreesUX_of _ _ (by decide +kernel)
+example : AgreesUX (pat! "(?i") false := agreesUX_of _ _ (by decide +kernel)
+example : AgreesUX (pat! "(?i-") false := agreesUX_of _ _ (by decide +kernel)
+example : AgreesUX (pat! "(?i:a") false := agreesUX_of _ _ (by decide +kernel)
+example : AgreesUX (pat! "(?i:a{2,1})") false := agreesUX_of _ _ (by decide +kernel)
+example : AgreesLX (pat! "(?i:a){2}(?-m:$)") true := agreesLX_of _ _ (by decide +kernel)
+example : AgreesLX (pat! "(?i:a{)") true := agreesLX_of _ _ (by decide +kernel)
+example : AgreesLX (pat! "(?i-i:a)") false := agreesLX_of _ _ (by decide +kernel)
+example : AgreesLX (pat! "(?-:a)") false := agreesLX_of _ _ (by decide +kernel)
+example : AgreesLX (pat! "(?mm:a)") false := agreesLX_of _ _ (by decide +kernel)
+
+-- property escapes
+example : AgreesUX (pat! "\\p{Lu}\\P{Ll}\\p{L}+") true := agreesUX_of _ _ (by decide +kernel)
+example : AgreesUX (pat! "\\p{gc=Lu}\\P{General_Category=Letter}") true := agreesUX_of _ _ (by decide +kernel)
+example : AgreesUX (pat! "\\p{sc=Greek}\\p{Script=Latin}\\p{scx=Hira}\\P{Script_Extensions=Cyrl}") true := agreesUX_of _ _ (by decide +kernel)
+example : AgreesUX (pat! "\\p{ASCII}\\p{Any}\\p{Alphabetic}\\p{Emoji_Presentation}{2}") true := agreesUX_of _ _ (by decide +kernel)
+example : AgreesUX (pat! "[\\p{L}\\P{N}a-z][^\\p{sc=Grek}-]") true := agreesUX_of _ _ (by decide +kernel)
+example : AgreesUX (pat! "[\\p{L}-z]") false := agreesUX_of _ _ (by decide +kernel)      -- a class in a range
+example : AgreesUX (pat! "[a-\\p{L}]") false := agreesUX_of _ _ (by decide +kernel)
+example : AgreesUX (pat! "\\p{}") false := agreesUX_of _ _ (by decide +kernel)
+example : AgreesUX (pat! "\\p{gc=}") false := agreesUX_of _ _ (by decide +kernel)
+example : AgreesUX (pat! "\\p{=Lu}") false := agreesUX_of _ _ (by decide +kernel)
+example : AgreesUX (pat! "\\p{Lu") false := agreesUX_of _ _ (by decide +kernel)
+example : AgreesUX (pat! "\\p") false := agreesUX_of _ _ (by decide +kernel)
+example : AgreesUX (pat! "\\pL") false := agreesUX_of _ _ (by decide +kernel)
+example : AgreesUX (pat! "\\p{lu}") false := agreesUX_of _ _ (by decide +kernel)          -- names are case-sensitive
+example : AgreesUX (pat! "\\p{gc=Lu=}") false := agreesUX_of _ _ (by decide +kernel)
+example : AgreesUX (pat! "\\p{gc=sc=Lu}") false := agreesUX_of _ _ (by decide +kernel)
+example : AgreesUX (pat! "\\p{GC=Lu}") false := agreesUX_of _ _ (by decide +kernel)
+example : AgreesUX (pat! "\\p{Script}") false := agreesUX_of _ _ (by decide +kernel)
+example : AgreesUX (pat! "\\p{gc=Greek}") false := agreesUX_of _ _ (by decide +kernel)
+example : AgreesUX (pat! "\\p{sc=Lu}") false := agreesUX_of _ _ (by decide +kernel)
+example : AgreesUX (pat! "\\p{L u}") false := agreesUX_of _ _ (by decide +kernel)
+example : AgreesUX (pat! "\\p{Greek}") false := agreesUX_of _ _ (by decide +kernel)       -- a script is not a lone name
+example : AgreesUX (pat! "\\p{RGI_Emoji}") false := agreesUX_of _ _ (by decide +kernel)   -- properties of strings need `v`
+example : AgreesUX (pat! "[\\p{RGI_Emoji}]") false := agreesUX_of _ _ (by decide +kernel)
+example : AgreesVX (pat! "\\p{RGI_Emoji}\\p{Basic_Emoji}\\p{Lu}\\P{sc=Grek}") true := agreesVX_of _ _ (by decide +kernel)
+example : AgreesVX (pat! "\\P{RGI_Emoji}") false := agreesVX_of _ _ (by decide +kernel)   -- negated property of strings
+example : AgreesVX (pat! "(?<n>\\p{L})(?i:\\k<n>)") true := agreesVX_of _ _ (by decide +kernel)
+
+-- Annex B escapes
+example : AgreesLX (pat! "\\d\\D\\s\\S\\w\\W\\b\\B") true := agreesLX_of _ _ (by decide +kernel)
+example : AgreesLX (pat! "\\f\\n\\r\\t\\v\\cA\\cz\\0\\00\\012\\08\\7\\8\\9") true := agreesLX_of _ _ (by decide +kernel)
+example : AgreesLX (pat! "\\x41\\x4\\xzz\\x\\u0041\\u004\\uzzzz\\u") true := agreesLX_of _ _ (by decide +kernel)
+example : AgreesLX (pat! "\\a\\e\\g\\k\\k<a>\\p\\P{Lu}\\-\\!\\ \\~\\_") true := agreesLX_of _ _ (by decide +kernel)
+example : AgreesLX (pat! "\\^\\$\\.\\*\\+\\?\\(\\)\\[\\]\\{\\}\\|\\/\\\\") true := agreesLX_of _ _ (by decide +kernel)
+example : AgreesLX (pat! "(a)\\1\\2\\9(b)") true := agreesLX_of _ _ (by decide +kernel)   -- back-reference / octal / identity
+example : AgreesLX (pat! "\\1*(a)\\1{2,3}?\\d+") true := agreesLX_of _ _ (by decide +kernel)
+example : AgreesLX (pat! "\\uD83Dx\\uDE00") true := agreesLX_of _ _ (by decide +kernel)
+example : AgreesLX (pat! "\\") false := agreesLX_of _ _ (by decide +kernel)
+example : AgreesLX (pat! "a\\") false := agreesLX_of _ _ (by decide +kernel)
+example : AgreesLX (pat! "(\\)") false := agreesLX_of _ _ (by decide +kernel)
+example : AgreesLX (pat! "\\b*") false := agreesLX_of _ _ (by decide +kernel)
+example : AgreesLX (pat! "\\x4{2,1}") false := agreesLX_of _ _ (by decide +kernel)
+-- excluded lexically (lags between the two readers; findings F29 / F30)
+example : inFragLegacyExt (pat! "\\c1") = false ∧ inFragLegacyExt (pat! "\\12") = false ∧
+    inFragLegacyExt (pat! "\\377") = false ∧
+    inFragLegacyExt (pat! "\\u{41}") = false ∧ inFragLegacyExt (pat! "\\uD83D\\uDE00") = false := by decide +kernel
+
+-- Annex B classes
+example : AgreesLX (pat! "[a-z][^a][][^][a-][-a][--][ab]{2}[[]") true := agreesLX_of _ _ (by decide +kernel)
+example : AgreesLX (pat! "[\\d-z][a-\\d][\\w-\\s]") true := agreesLX_of _ _ (by decide +kernel)       -- classes in "ranges"
+example : AgreesLX (pat! "[\\b\\B\\-\\k\\p{L}\\P\\]\\\\]") true := agreesLX_of _ _ (by decide +kernel)
+example : AgreesLX (pat! "[\\cA\\c1\\c_\\ca-\\cz]") true := agreesLX_of _ _ (by decide +kernel)
+example : AgreesLX (pat! "[\\x41-\\x5a\\u0041-\\u005A\\101-\\132\\0-\\7\\8\\9\\12\\377\\400]") true := agreesLX_of _ _ (by decide +kernel)
+example : AgreesLX (pat! "[(*+?{}|^$.)]+[]-a]") true := agreesLX_of _ _ (by decide +kernel)
+example : AgreesLX (pat! "[z-a]") false := agreesLX_of _ _ (by decide +kernel)
+example : AgreesLX (pat! "[\\x42-\\x41]") false := agreesLX_of _ _ (by decide +kernel)
+example : AgreesLX (pat! "[b-\\101]") false := agreesLX_of _ _ (by decide +kernel)             -- `b` > `\101` = `A`
+example : AgreesLX (pat! "[\\u0062-\\x61]") false := agreesLX_of _ _ (by decide +kernel)
+example : AgreesLX (pat! "[a") false := agreesLX_of _ _ (by decide +kernel)
+example : AgreesLX (pat! "[a-z") false := agreesLX_of _ _ (by decide +kernel)
+example : AgreesLX (pat! "[\\]") false := agreesLX_of _ _ (by decide +kernel)
+example : AgreesLX (pat! "(?:[a-z]") false := agreesLX_of _ _ (by decide +kernel)
+example : inFragLegacyExt (pat! "[\\c]") = false ∧ inFragLegacyExt (pat! "[\\u{41}]") = false ∧
+    inFragLegacyExt (pat! "[\\uD83D\\uDE00]") = false := by decide +kernel
+
+-- named groups in Annex B mode (the grammar parses twice)
+example : AgreesLX (pat! "(?<a>x)(?<b>y)\\1\\2\\3") true := agreesLX_of _ _ (by decide +kernel)
+example : AgreesLX (pat! "(?<a>[a-z\\d]\\d)(?:b)|(?<$_>y)*") true := agreesLX_of _ _ (by decide +kernel)
+example : AgreesLX (pat! "(?<\\u0061b>x){2}") true := agreesLX_of _ _ (by decide +kernel)
+example : AgreesLX (pat! "(?<a>x") false := agreesLX_of _ _ (by decide +kernel)
+example : AgreesLX (pat! "(?<1a>x)") false := agreesLX_of _ _ (by decide +kernel)
+example : AgreesLX (pat! "(?<a>x)(?<b>") false := agreesLX_of _ _ (by decide +kernel)
+example : AgreesLX (pat! "(?<a>x)(?<>y)") false := agreesLX_of _ _ (by decide +kernel)
+example : inFragLegacyExt (pat! "(?<a>x)\\k<a>") = false ∧ inFragLegacyExt (pat! "(?<a>x)(?<a>y)") = false ∧
+    inFragLegacyExt (pat! "\\k<a>") = true := by decide +kernel
+
+-- class sets (flag `v`)
+example : AgreesVX (pat! "[a-z][^a-z][][^][abc][a-zA-Z0-9_]+") true := agreesVX_of _ _ (by decide +kernel)
+example : AgreesVX (pat! "[[a-z]&&[aeiou]][\\w--\\d][[a-z]--[aeiou]--[x]]") true := agreesVX_of _ _ (by decide +kernel)
+example : AgreesVX (pat! "[\\q{abc|d|}][\\q{}][^\\q{a|b}]") true := agreesVX_of _ _ (by decide +kernel)
+example : AgreesVX (pat! "[\\p{L}&&\\p{ASCII}][\\p{RGI_Emoji}][\\q{ab}\\p{RGI_Emoji}a-z]") true := agreesVX_of _ _ (by decide +kernel)
+example : AgreesVX (pat! "[a&b][[[a]]][^[^[^a]]]") true := agreesVX_of _ _ (by decide +kernel)
+example : AgreesVX (pat! "[\\[\\]\\(\\)\\{\\}\\/\\-\\|\\\\][\\b\\&\\!\\#]") true := agreesVX_of _ _ (by decide +kernel)
+example : AgreesVX (pat! "[\\u{1F600}-\\u{1F64F}\\x41\\cA\\0\\n]") true := agreesVX_of _ _ (by decide +kernel)
+example : AgreesVX (pat! "(?<n>[a[b[c]]])\\k<n>(?i:[\\q{ab}&&\\q{ab|c}])") true := agreesVX_of _ _ (by decide +kernel)
+example : AgreesVX (pat! "[[a-z]&&\\q{abc}]") true := agreesVX_of _ _ (by decide +kernel)
+-- ... rejected
+example : AgreesVX (pat! "[a-z&&[^aeiou]]") false := agreesVX_of _ _ (by decide +kernel)     -- `&&` after a range
+example : AgreesVX (pat! "[^\\q{ab}]") false := agreesVX_of _ _ (by decide +kernel)           -- negated class with strings
+example : AgreesVX (pat! "[^\\p{RGI_Emoji}]") false := agreesVX_of _ _ (by decide +kernel)
+example : AgreesVX (pat! "[^[\\q{ab}]]") false := agreesVX_of _ _ (by decide +kernel)
+example : AgreesVX (pat! "[^[\\q{ab}]&&[a]]") true := agreesVX_of _ _ (by decide +kernel)     -- an intersection with a plain class has no strings
+example : AgreesVX (pat! "[^[\\q{ab}]--[a]]") false := agreesVX_of _ _ (by decide +kernel)    -- a subtraction keeps them
+example : AgreesVX (pat! "[a&&&b]") false := agreesVX_of _ _ (by decide +kernel)
+example : AgreesVX (pat! "[a&&b--c]") false := agreesVX_of _ _ (by decide +kernel)
+example : AgreesVX (pat! "[a--b&&c]") false := agreesVX_of _ _ (by decide +kernel)
+example : AgreesVX (pat! "[a&&]") false := agreesVX_of _ _ (by decide +kernel)
+example : AgreesVX (pat! "[&&a]") false := agreesVX_of _ _ (by decide +kernel)
+example : AgreesVX (pat! "[z-a]") false := agreesVX_of _ _ (by decide +kernel)
+example : AgreesVX (pat! "[a-]") false := agreesVX_of _ _ (by decide +kernel)
+example : AgreesVX (pat! "[\\d-z]") false := agreesVX_of _ _ (by decide +kernel)
+example : AgreesVX (pat! "[a-\\d]") false := agreesVX_of _ _ (by decide +kernel)
+example : AgreesVX (pat! "[a-[b]]") false := agreesVX_of _ _ (by decide +kernel)
+example : AgreesVX (pat! "[(]") false := agreesVX_of _ _ (by decide +kernel)
+example : AgreesVX (pat! "[a|b]") false := agreesVX_of _ _ (by decide +kernel)
+example : AgreesVX (pat! "[!!]") false := agreesVX_of _ _ (by decide +kernel)
+example : AgreesVX (pat! "[a") false := agreesVX_of _ _ (by decide +kernel)
+example : AgreesVX (pat! "[[a]") false := agreesVX_of _ _ (by decide +kernel)
+example : AgreesVX (pat! "[\\q{a]") false := agreesVX_of _ _ (by decide +kernel)
+example : AgreesVX (pat! "[\\q]") false := agreesVX_of _ _ (by decide +kernel)
+example : AgreesVX (pat! "[\\P{RGI_Emoji}]") false := agreesVX_of _ _ (by decide +kernel)
+example : AgreesVX (pat! "a]") false := agreesVX_of _ _ (by decide +kernel)
+
 -- the flag `v` (no classes): the theorem applies as well
 example : esValid (flagsText { unicodeSets := true }) (pat! "(a)\\1(?<=b){2,3}") = false := by
   have := C08_fragment_u (pat! "(a)\\1(?<=b){2,3}") { unicodeSets := true } rfl (by decide +kernel) (by decide +kernel)
@@ -455,3 +874,5 @@ end Regress.C08Frag
 #print axioms Regress.C08Frag.C08_fragment_u
 #print axioms Regress.C08Frag.C08_fragment_legacy
 #print axioms Regress.C08Frag.C08_fragment_u_named
+#print axioms Regress.C08Frag.C08_fragment_u_ext
+#print axioms Regress.C08Frag.C08_fragment_legacy_ext
